@@ -122,28 +122,96 @@ def counter_shape(ctx):
                         where=f'{c}.{m}')
 
 
-# --------------------------------------------------------------------------- timestamp protocol (R10.4)
-def timestamp_protocol(ctx):
-    prog = ctx.prog
-    ctx.rule('R10.4', 'TimestampWeightedTally.register: order guard precedes all writes; accumulation only while active; weight = max(0, t - last); end_observations registers then deactivates')
-    ci = prog.cls('TimestampWeightedTally')
-    fn = prog.method('TimestampWeightedTally', 'register', inherited=False)
-    ts, val = fn.args.args[1].arg, fn.args.args[2].arg
-    g = CFG(fn)
-    # the fields are found through their getters / their role, not by name (a renamed private field is the same protocol)
-    def _getter_field(m, default):
-        e = prog.simple_return('TimestampWeightedTally', m)
-        return e.attr if isinstance(e, ast.Attribute) and unparse(e.value) == 'self' else default
-    ACTIVE = _getter_field('isactive', '_active')
-    LASTV = _getter_field('last_value', '_last_value')
-    LASTT = '_last_timestamp'
-    for i_ in walk_shallow(fn):
-        if isinstance(i_, ast.If) and any(isinstance(x, ast.Raise) for x in i_.body) and isinstance(i_.test, ast.Compare) and len(i_.test.ops) == 1:
-            l_, r_ = i_.test.left, i_.test.comparators[0]
-            if isinstance(i_.test.ops[0], ast.Lt) and unparse(l_) == ts and is_self_attr(r_):
-                LASTT = r_.attr
-            elif isinstance(i_.test.ops[0], ast.Gt) and unparse(r_) == ts and is_self_attr(l_):
-                LASTT = l_.attr
+from .pathsum import PathSum, Unsupported as _Unsupported
+
+
+def _timestamp_cases(ctx, prog, ci, fn, ts, val, ACTIVE, LASTV, LASTT, START):
+    """active x (no observation yet | ts < last | ts == last | ts > last): outcome of register(ts, val) against the specification
+         ts < last                  -> refused (raise), nothing written
+         not active                 -> no accumulation, start / last timestamp unchanged, last value := val
+         active, no observation yet -> start := ts, last timestamp := ts, no accumulation, last value := val
+         active, ts == last         -> no accumulation, last value := val
+         active, ts > last          -> exactly one base register(ts - last, OLD last value), last timestamp := ts, last value := val
+       `no observation yet` means start and last timestamp are both NaN; register keeps the two NaN together (checked per case)."""
+    cname = 'TimestampWeightedTally'
+    lt, lv, stt = f'self.{LASTT}', f'self.{LASTV}', f'self.{START}'
+    wants_w = (f'{ts} - {lt}', f'max(0.0, {ts} - {lt})', f'max(0, {ts} - {lt})', f'max({ts} - {lt}, 0.0)', f'max({ts} - {lt}, 0)')
+    bad = []
+    ncases = 0
+    for active in (True, False):
+        for rel in ('nan', 'lt', 'eq', 'gt'):
+            ncases += 1
+            env = {('bool', f'self.{ACTIVE}'): active,
+                   ('bool', f'math.isnan({lt})'): rel == 'nan', ('bool', f'math.isnan({stt})'): rel == 'nan',
+                   ('bool', f'math.isnan({ts})'): False, ('bool', f'math.isnan({val})'): False,
+                   ('ord', ts, lt): 'un' if rel == 'nan' else rel}
+            outs = PathSum(prog, cname, fn, env).run()
+            ctx.examined()
+            case = f'active={active}, ' + {'nan': 'no observation yet', 'lt': 'timestamp before the last one', 'eq': 'timestamp equal to the last one', 'gt': 'timestamp after the last one'}[rel]
+            if not outs:
+                bad.append((case, fn, 'no path through register'))
+                continue
+            for o in outs:
+                forks = [c for (c, b) in o.conds if isinstance(b, str)]
+                if forks:
+                    bad.append((case, o.node or fn, f'the outcome depends on `{forks[0][:60]}`, which the case does not decide'))
+                    continue
+                regs = [c for c in o.calls if isinstance(c.func, ast.Attribute) and c.func.attr == 'register']
+                others = [c for c in o.calls if c not in regs]
+                if rel == 'lt':
+                    if o.kind != 'raise':
+                        bad.append((case, o.node or fn, 'an observation with a timestamp earlier than the last one is accepted'))
+                    elif o.store or o.calls:
+                        bad.append((case, o.node or fn, f'the refused observation has already written {sorted(o.store)}'))
+                    continue
+                if o.kind == 'raise':
+                    bad.append((case, o.node or fn, f'a valid observation is refused (`{o.exc[:50]}`)'))
+                    continue
+                if o.field(LASTV) != val:
+                    bad.append((case, o.node or fn, f'the last value becomes `{o.field(LASTV)}`, not the observed value `{val}`: the next interval is weighted with a stale value'))
+                want_acc = active and rel == 'gt'
+                if not want_acc and regs:
+                    bad.append((case, regs[0], 'the base register() is called although no interval has elapsed / the tally is not active'))
+                if want_acc:
+                    if len(regs) != 1:
+                        bad.append((case, o.node or fn, f'{len(regs)} calls of the base register(); exactly one interval must be accumulated'))
+                    else:
+                        a = regs[0].args[1:] if unparse(regs[0].func.value) == 'WeightedTally' else regs[0].args
+                        wt = unparse(a[0]) if a else '?'
+                        vt = unparse(a[1]) if len(a) > 1 else '?'
+                        if wt not in wants_w:
+                            bad.append((case, regs[0], f'the interval is weighted with `{wt}`, not with the elapsed time `{ts} - {lt}`'))
+                        if vt != lv:
+                            bad.append((case, regs[0], f'the interval is accumulated for `{vt}`, not for the value that was valid during it (`{lv}` before this call)'))
+                # timestamps
+                nl = o.field(LASTT)
+                ns = o.field(START)
+                if active and rel == 'nan':
+                    if ns != ts or nl != ts:
+                        bad.append((case, o.node or fn, f'first observation: start time becomes `{ns}` and last timestamp `{nl}`; both must become `{ts}`'))
+                elif active and rel == 'gt':
+                    if nl != ts or ns != stt:
+                        bad.append((case, o.node or fn, f'last timestamp becomes `{nl}` (required `{ts}`), start time `{ns}` (required unchanged)'))
+                elif active and rel == 'eq':
+                    if nl not in (ts, lt) or ns != stt:
+                        bad.append((case, o.node or fn, f'last timestamp becomes `{nl}`, start time `{ns}`; required unchanged'))
+                else:
+                    if nl != lt or ns != stt:
+                        bad.append((case, o.node or fn, f'an inactive tally changes its timestamps (last `{nl}`, start `{ns}`)'))
+    ok = not bad
+    ctx.exhaustive['R10.4 active x (none | before | equal | after)'] = True
+    ctx.ob('R10.4', 'accumulate', ok, sample=f'register({ts}, {val}): {ncases} cases summarised path by path against the specification: mismatches {len(bad)}')
+    seen = set()
+    for (case, node, msg) in bad:
+        key = msg.split(':')[0][:40]
+        if key in seen:
+            continue
+        seen.add(key)
+        kind = 'remember-last' if 'last value becomes' in msg else ('order-guard' if 'earlier than the last' in msg else 'accumulate')
+        ctx.finding('R10.4', f'TimestampWeightedTally.register:{kind}', ci, node, f'[{case}] {msg}', where='TimestampWeightedTally.register')
+
+
+def _timestamp_template(ctx, prog, ci, fn, g, ts, val, ACTIVE, LASTV, LASTT):
     # earlier-timestamp raise
     og = [i for i in walk_shallow(fn) if isinstance(i, ast.If) and any(isinstance(x, ast.Raise) for x in i.body)
           and unparse(i.test) in (f'{ts} < self.{LASTT}', f'self.{LASTT} > {ts}')]
@@ -193,6 +261,40 @@ def timestamp_protocol(ctx):
     if not ok:
         ctx.finding('R10.4', 'TimestampWeightedTally.register:remember-last', ci, fn, 'register does not store the new value / timestamp as the last observation on every accepted path',
                     where='TimestampWeightedTally.register')
+
+
+# --------------------------------------------------------------------------- timestamp protocol (R10.4)
+def timestamp_protocol(ctx):
+    prog = ctx.prog
+    ctx.rule('R10.4', 'TimestampWeightedTally.register: order guard precedes all writes; accumulation only while active; weight = max(0, t - last); end_observations registers then deactivates')
+    ci = prog.cls('TimestampWeightedTally')
+    fn = prog.method('TimestampWeightedTally', 'register', inherited=False)
+    ts, val = fn.args.args[1].arg, fn.args.args[2].arg
+    g = CFG(fn)
+    # the fields are found through their getters / their role, not by name (a renamed private field is the same protocol)
+    def _getter_field(m, default):
+        e = prog.simple_return('TimestampWeightedTally', m)
+        return e.attr if isinstance(e, ast.Attribute) and unparse(e.value) == 'self' else default
+    ACTIVE = _getter_field('isactive', '_active')
+    LASTV = _getter_field('last_value', '_last_value')
+    LASTT = '_last_timestamp'
+    for i_ in walk_shallow(fn):
+        if isinstance(i_, ast.If) and any(isinstance(x, ast.Raise) for x in i_.body) and isinstance(i_.test, ast.Compare) and len(i_.test.ops) == 1:
+            l_, r_ = i_.test.left, i_.test.comparators[0]
+            if isinstance(i_.test.ops[0], ast.Lt) and unparse(l_) == ts and is_self_attr(r_):
+                LASTT = r_.attr
+            elif isinstance(i_.test.ops[0], ast.Gt) and unparse(r_) == ts and is_self_attr(l_):
+                LASTT = l_.attr
+    # ---- what register does, case by case (E10 path summaries): independent of statement order, helper locals and early returns
+    START = '_start_time'
+    for x_ in walk_shallow(fn):
+        if isinstance(x_, ast.Call) and unparse(x_.func) == 'math.isnan' and len(x_.args) == 1 and is_self_attr(x_.args[0]) and x_.args[0].attr != LASTT:
+            START = x_.args[0].attr
+    try:
+        _timestamp_cases(ctx, prog, ci, fn, ts, val, ACTIVE, LASTV, LASTT, START)
+    except _Unsupported as e_:
+        ctx.note(f'R10.4: path summaries not applicable to register ({e_}); template rule used instead')
+        _timestamp_template(ctx, prog, ci, fn, g, ts, val, ACTIVE, LASTV, LASTT)
     # end_observations
     eo = prog.method('TimestampWeightedTally', 'end_observations', inherited=False)
     p = eo.args.args[1].arg
@@ -502,6 +604,32 @@ def coercion_before_write(ctx, rule, classes):
 MUTATORS = ('append', 'extend', 'insert', 'remove', 'pop', 'clear', 'update', 'setdefault', 'add', 'discard', 'popitem', 'sort', 'reverse', 'appendleft')
 
 
+HEAPQ_MUTATORS = {'heapq.heappush', 'heapq.heappop', 'heapq.heapify', 'heapq.heapreplace', 'heapq.heappushpop', 'bisect.insort', 'bisect.insort_left', 'bisect.insort_right'}
+
+
+def instance_mutation_sites(prog, cname, name):
+    """(subclass, method, node) of in-place changes of the attribute `name` through self / cls / type(self) in cname and its subclasses"""
+    muts = []
+    for sub in prog.subclasses(cname, strict=False):
+        sci = prog.classes[sub]
+        for mname, fn in list(sci.methods.items()) + list(sci.setters.items()):
+            for x in walk_shallow(fn):
+                base = None
+                if isinstance(x, ast.Subscript) and isinstance(x.ctx, (ast.Store, ast.Del)) and isinstance(x.value, ast.Attribute) and x.value.attr == name:
+                    base = x.value.value
+                elif isinstance(x, ast.Call) and isinstance(x.func, ast.Attribute) and x.func.attr in MUTATORS \
+                        and isinstance(x.func.value, ast.Attribute) and x.func.value.attr == name:
+                    base = x.func.value.value
+                elif isinstance(x, ast.AugAssign) and isinstance(x.target, ast.Attribute) and x.target.attr == name:
+                    base = x.target.value
+                elif isinstance(x, ast.Call) and unparse(x.func) in HEAPQ_MUTATORS and x.args and isinstance(x.args[0], ast.Attribute) \
+                        and x.args[0].attr == name:
+                    base = x.args[0].value
+                if base is not None and unparse(base) in ('self', 'cls', 'type(self)', 'self.__class__'):
+                    muts.append((sub, mname, x))
+    return muts
+
+
 def shared_class_state(ctx, rule, class_names, consequence):
     """A container created once in the class body and changed through instances is one object for all instances (and
     all subclasses): what one instance stores, every other instance sees.  Flags class-level containers that some
@@ -533,6 +661,9 @@ def shared_class_state(ctx, rule, class_names, consequence):
                             base = x.func.value.value
                         elif isinstance(x, ast.AugAssign) and isinstance(x.target, ast.Attribute) and x.target.attr == name:
                             base = x.target.value
+                        elif isinstance(x, ast.Call) and unparse(x.func) in HEAPQ_MUTATORS and x.args and isinstance(x.args[0], ast.Attribute) \
+                                and x.args[0].attr == name:
+                            base = x.args[0].value
                         if base is not None and unparse(base) in ('self', 'cls', 'type(self)', 'self.__class__'):
                             muts.append((sub, mname, x))
                     if mname == '__init__' and sub == cname:
@@ -546,4 +677,53 @@ def shared_class_state(ctx, rule, class_names, consequence):
                 ctx.finding(rule, f'{cname}.{name}:shared', ci, stmt,
                             f'`{name}` is created once in the class body and mutated through instances (`{short(x, 50)}` in {sub}.{mname}): all {cname} objects share it, so {consequence}',
                             where=cname)
-    ctx.note(f'{rule}: {n} class-level containers examined in {len(class_names)} classes')
+    # ---- module-level objects handed to instances: `self.f = _DEFAULT` followed by in-place changes through self.f
+    m = 0
+    for cname in class_names:
+        ci = prog.classes.get(cname)
+        if ci is None:
+            continue
+        globs = {}
+        for st in ci.module.tree.body:
+            if isinstance(st, (ast.Assign, ast.AnnAssign)) and getattr(st, 'value', None) is not None:
+                v = st.value
+                mutable = isinstance(v, (ast.Dict, ast.List, ast.Set, ast.DictComp, ast.ListComp, ast.SetComp)) or \
+                    (isinstance(v, ast.Call) and (unparse(v.func).split('.')[-1] in ('dict', 'list', 'set', 'defaultdict', 'OrderedDict', 'deque', 'Counter')
+                                                  or (isinstance(v.func, ast.Name) and v.func.id in prog.classes)))
+                if mutable:
+                    for t in (st.targets if isinstance(st, ast.Assign) else [st.target]):
+                        if isinstance(t, ast.Name):
+                            globs[t.id] = st
+        if not globs:
+            continue
+        for mname, fn in list(ci.methods.items()) + list(ci.setters.items()):
+            for a in walk_shallow(fn):
+                if not (isinstance(a, (ast.Assign, ast.AnnAssign)) and isinstance(getattr(a, 'value', None), ast.Name) and a.value.id in globs):
+                    continue
+                for t in (a.targets if isinstance(a, ast.Assign) else [a.target]):
+                    if not is_self_attr(t):
+                        continue
+                    fld = t.attr
+                    m += 1
+                    muts = []
+                    for sub in prog.subclasses(cname, strict=False):
+                        sci = prog.classes[sub]
+                        for m2, f2 in list(sci.methods.items()) + list(sci.setters.items()):
+                            for x in walk_shallow(f2):
+                                tgt = None
+                                if isinstance(x, ast.Attribute) and isinstance(x.ctx, (ast.Store, ast.Del)) and is_self_attr(x.value, fld):
+                                    tgt = x
+                                elif isinstance(x, ast.Subscript) and isinstance(x.ctx, (ast.Store, ast.Del)) and is_self_attr(x.value, fld):
+                                    tgt = x
+                                elif isinstance(x, ast.Call) and isinstance(x.func, ast.Attribute) and x.func.attr in MUTATORS and is_self_attr(x.func.value, fld):
+                                    tgt = x
+                                if tgt is not None:
+                                    muts.append((sub, m2, tgt))
+                    ok = not muts
+                    ctx.ob(rule, f'{cname}.{fld}<-{a.value.id}', ok, sample=f'{cname}.{mname}: self.{fld} = {a.value.id} (one module-level object for all instances); changed in place at {len(muts)} site(s)')
+                    if not ok:
+                        sub, m2, x = muts[0]
+                        ctx.finding(rule, f'{cname}.{fld}:shared-module-object', ci, x,
+                                    f'`self.{fld}` is bound to the module-level object `{a.value.id}` in {cname}.{mname} and changed in place in {sub}.{m2} (`{short(x, 50)}`): '
+                                    f'all {cname} objects share that object, so {consequence}', where=f'{sub}.{m2}')
+    ctx.note(f'{rule}: {n} class-level containers and {m} module-level objects stored in instances examined in {len(class_names)} classes')
